@@ -140,3 +140,29 @@ def canonicalise_adts(raw):
         nl, ol = new.rsplit("::", 1)[1], old.rsplit("::", 1)[1]
         text = text.replace('"variant": "%s"' % nl, '"variant": "%s"' % ol).replace('"name": "%s", "idx": 0' % nl, '"name": "%s", "idx": 0' % ol)
     return json.loads(text), ren
+
+
+def tupleise_new_structs(raw):
+    """A struct that does not exist on the pinned tree is a refactoring's way of naming a
+    bundle of values (a `Worker { ticket, handle }` instead of a `(ticket, handle)` pair, a
+    `Job { .. }` captured by a thread).  It is presented to the rules as the tuple of its
+    fields, in declaration order."""
+    with open(os.path.join(HERE, "known_functions.json")) as f:
+        known = set(json.load(f).get("adts", []))
+    new = {a["path"] for a in raw["adts"] if a["kind"] == "struct" and not a.get("in_test") and a["path"] not in known and "::" in a["path"]}
+    if not new:
+        return raw, set()
+
+    def walk(x):
+        if isinstance(x, dict):
+            if x.get("k") == "field" and x.get("of") in new:
+                x["name"] = None
+            if x.get("k") == "aggregate" and isinstance(x.get("kind"), dict) and x["kind"].get("k") == "adt" and x["kind"].get("adt") in new:
+                x["kind"] = {"k": "tuple", "was": x["kind"]["adt"]}
+            for v in x.values():
+                walk(v)
+        elif isinstance(x, list):
+            for v in x:
+                walk(v)
+    walk(raw["bodies"])
+    return raw, new
